@@ -9,15 +9,18 @@ package main
 
 import (
 	"bytes"
+	"context"
 	"encoding/json"
 	"flag"
 	"fmt"
 	"math/rand"
 	"os"
+	"runtime"
 	"sync"
 	"sync/atomic"
 	"time"
 
+	"github.com/google/uuid"
 	"github.com/pkg/errors"
 	bitcoin_reader "github.com/tokenized/bitcoin_reader"
 	"github.com/tokenized/pkg/bitcoin"
@@ -32,6 +35,17 @@ type bdnResult struct {
 	Trace    []string `json:"trace"`
 	Msg      string   `json:"msg"`
 	Known    string   `json:"known"`
+}
+
+type slowCanceller struct {
+	node  *bitcoin_reader.BitcoinNode
+	delay time.Duration
+}
+
+func (c *slowCanceller) ID() uuid.UUID { return c.node.ID() }
+func (c *slowCanceller) CancelBlockRequest(ctx context.Context, hash bitcoin.Hash32) bool {
+	time.Sleep(c.delay)
+	return c.node.CancelBlockRequest(ctx, hash)
 }
 
 func bdnOne(seed int64, mode string) bdnResult {
@@ -110,7 +124,13 @@ func bdnOne(seed int64, mode string) bdnResult {
 		res.Msg = "harness: RequestBlock: " + err.Error()
 		return res
 	}
-	bd.SetCanceller(s.node.ID(), s.node)
+	if mode == "dropcancel" {
+		// the node answers the cancel a moment late (it is busy): the window in which the downloader holds its state
+		// lock and waits for the node is a few hundred microseconds instead of a few instructions
+		bd.SetCanceller(s.node.ID(), &slowCanceller{node: s.node, delay: time.Duration(50+rng.Intn(400)) * time.Microsecond})
+	} else {
+		bd.SetCanceller(s.node.ID(), s.node)
+	}
 	intr := make(chan interface{})
 	runDone := make(chan error, 1)
 	go func() { runDone <- bd.Run(s.ctx, intr) }()
@@ -158,6 +178,9 @@ func bdnOne(seed int64, mode string) bdnResult {
 		term = ev{"peerdrop", rng.Intn(len(chunks) + 1)}
 	case "interrupt":
 		term = ev{"interrupt", rng.Intn(len(chunks) + 1)}
+	case "dropcancel":
+		// the peer drops and the manager cancels at the same moment
+		term = ev{"dropcancel", rng.Intn(len(chunks) + 1)}
 	case "complete":
 		term = ev{"none", -1}
 	case "silent":
@@ -179,6 +202,16 @@ func bdnOne(seed int64, mode string) bdnResult {
 			cancelAt = time.Now()
 			wg.Add(1)
 			go func() { defer wg.Done(); bd.Cancel(s.ctx); close(cancelDone) }()
+		case "dropcancel":
+			cancelIssued = true
+			cancelAt = time.Now()
+			dropped = true
+			wg.Add(1)
+			go func() { defer wg.Done(); bd.Cancel(s.ctx); close(cancelDone) }()
+			for spin := rng.Intn(200); spin > 0; spin-- {
+				runtime.Gosched()
+			}
+			s.conn.Close()
 		case "peerdrop":
 			dropped = true
 			s.conn.Close()
@@ -287,7 +320,7 @@ func bdnOne(seed int64, mode string) bdnResult {
 	select {
 	case runErr = <-runDone:
 	case <-time.After(4 * time.Second):
-		if term.kind == "none" || term.kind == "cancel" || term.kind == "peerdrop" || term.kind == "interrupt" {
+		if term.kind == "none" || term.kind == "cancel" || term.kind == "peerdrop" || term.kind == "interrupt" || term.kind == "dropcancel" {
 			res.Msg = fmt.Sprintf("Run did not return within 4 s after the complete stream / %s (trace %v)", term.kind, res.Trace)
 		}
 		if term.kind != "interrupt" {
@@ -357,7 +390,7 @@ func bdnMain(args []string) int {
 	count := fs.Int("count", 200, "scenarios per mode")
 	workers := fs.Int("workers", 8, "workers")
 	fs.Parse(args)
-	modes := []string{"complete", "cancel", "peerdrop", "interrupt", "silent", "backlog"}
+	modes := []string{"complete", "cancel", "peerdrop", "interrupt", "silent", "backlog", "dropcancel"}
 	type job struct {
 		seed int64
 		mode string
